@@ -11,7 +11,7 @@ MANIFEST = dict(
 
 THEOREMS = ["Props.C11.C11_ctx_reported", "Props.C11.C11_ctx_reported_refuted_at_rewrap_sites", "Props.C11.C11_cancel_reported",
             "Props.C11.C11_ctx_error_only_when_done", "Props.C11.C11_never_fires_equal", "Props.C11.C11_tok_never_fires_equal",
-            "Props.C11.C11_tok_cancel_reported", "Props.C11.C11_tok_cancel_prompt"]
+            "Props.C11.C11_tok_cancel_reported", "Props.C11.C11_tok_cancel_prompt", "Props.C11.C11_cursor_cancel_prompt"]
 INST = ["Inst_C11.c11_ctx_free_ok", "Inst_C11.c11_no_rewrap_on_poll_paths", "Inst_C11.c11_no_discard_on_poll_paths", "Inst_C11.c11_polls_are_polls"]
 
 # constructs inside which a poll happens (each was a re-wrap-by-text site on the pinned tree)
@@ -85,7 +85,7 @@ def wide_inputs(tier):
     out = []
     for name, f in WIDE.items():
         for n in sizes:
-            out.append({"id": "wide:%s@%d" % (name, n), "sql": f(n), "max_k": 3})
+            out.append({"id": "wide:%s@%d" % (name, n), "sql": f(n), "max_k": 40 if n == sizes[0] else 3})
     return out, sizes
 
 
@@ -210,9 +210,19 @@ def run(tier):
             v["sql_prefix"], v["sql_len"] = v["sql"][:300], len(v["sql"])
         rp.violation(v, "%s_%s" % (v["oracle"], re.sub(r"\W+", "_", v["entry_point"])))
 
-    # ---- promptness of the parser: the largest poll-free run must not grow with the input
+    # ---- promptness of the parser: the cursor polls every contextPollInterval tokens (model: Ctx.adv), so the
+    # largest poll-free run of ANY input is at most that interval; without the constant the run must at least not
+    # grow with the input
+    interval = int((ef.get("limits") or {}).get("contextPollInterval", 0) or 0)
+    rp.cov["context_poll_interval"] = interval
     growth = {}
-    kgap = {k["signature"].get("family"): k for k in kf if k["status"] == "known" and k["signature"].get("kind") == "input_shape"}
+    kgap = {k["signature"].get("family"): k for k in kf if k["signature"].get("kind") == "input_shape"}
+    worst = None
+    for o in outs:
+        for e in o["eps"]:
+            if e["name"] == "Parser.ParseContextFromModelTokens" and (worst is None or e["max_gap"] > worst[0]):
+                worst = (e["max_gap"], o["id"])
+    rp.cov["largest_poll_free_run"] = {"tokens": worst[0], "input": worst[1]} if worst else None
     for name in WIDE:
         gaps = []
         for n in sizes:
@@ -222,13 +232,25 @@ def run(tier):
         growth[name] = dict(zip(["n=%d" % n for n in sizes], gaps))
         if None in gaps:
             continue
-        if gaps[-1] > 200 and gaps[-1] >= 1.7 * gaps[0]:
-            if name in kgap:
-                rp.known(kgap[name]["key"], "%s [largest poll-free run %s tokens for n=%s]" % (kgap[name]["what"][:150], gaps, list(sizes)))
+        grows = gaps[-1] > 200 and gaps[-1] >= 1.7 * gaps[0]
+        beyond = interval > 0 and max(gaps) > interval
+        if grows or beyond:
+            k = kgap.get(name)
+            if k and k["status"] == "known":
+                rp.known(k["key"], "%s [largest poll-free run %s tokens for n=%s]" % (k["what"][:150], gaps, list(sizes)))
             else:
                 rp.violation({"kind": "oracle", "oracle": "not_prompt", "family": name, "sizes": list(sizes), "largest_poll_free_run": gaps, "sql": WIDE[name](sizes[0])[:2000],
-                              "detail": "the largest run of tokens the parser consumes without polling the context grows with the input (family %s): a cancellation is not honoured within a bounded amount of work" % name},
+                              "poll_interval": interval,
+                              "detail": ("the defect fixed in %s is back: " % k.get("commit") if k else "") +
+                                        "the largest run of tokens the parser consumes without polling the context %s (family %s): a cancellation is not honoured within a bounded amount of work"
+                                        % ("grows with the input" if grows else "exceeds the cursor's poll interval %d" % interval, name)},
                              "unbounded_gap_%s" % name)
+    if interval == 0:
+        rp.violation({"kind": "correspondence", "broken": "the parser no longer declares contextPollInterval: the cursor poll schedule of Model/Ctx.adv (C11_cursor_cancel_prompt) is not tied to the code",
+                      "largest_poll_free_run": rp.cov["largest_poll_free_run"]}, "poll_interval_missing", no_input=True)
+    elif worst and worst[0] > interval and not any("unbounded_gap" in v for v in rp.violations):
+        rp.violation({"kind": "oracle", "oracle": "not_prompt", "sql": srcs[worst[1]]["sql"][:3000], "input_id": worst[1], "largest_poll_free_run": worst[0], "poll_interval": interval,
+                      "detail": "the parser consumed %d tokens without polling the context; the cursor is modelled (and documented) to poll every %d tokens" % (worst[0], interval)}, "poll_free_run_beyond_interval")
     rp.cov["poll_free_run_by_family"] = growth
 
     # ---- correspondence 1: observed chain shapes under cancellation derivable at the entry point, and context errors
@@ -342,7 +364,8 @@ def replay(path):
         outs, _ = run_sweep([{"id": "w%d" % n, "sql": WIDE[d["family"]](n), "max_k": 1} for n in d["sizes"]])
         gaps = [[e["max_gap"] for e in o["eps"] if e["name"] == "Parser.ParseContextFromModelTokens"][0] for o in outs]
         print("largest poll-free runs:", gaps)
-        return 1 if gaps[-1] > 200 and gaps[-1] >= 1.7 * gaps[0] else 0
+        iv = int(d.get("poll_interval") or 0)
+        return 1 if (gaps[-1] > 200 and gaps[-1] >= 1.7 * gaps[0]) or (iv > 0 and max(gaps) > iv) else 0
     if not sql:
         print("no input in this replay file (table-level finding): re-run bin/check C11 quick")
         return 2
